@@ -523,6 +523,9 @@ def check_type_text_splitting(P, rule):
             if in_resolver and pat == "::" and c.name in ("find", "split_once", "splitn", "split_terminator"):
                 rule.bad(V(rule.id, fid, "qualifier-cut-at-first-separator:%s" % c.name, "%s cuts a path-qualified type name at the *first* `::` (%s): of `a::b::Type` the text "
                            "`b::Type` is kept, which names no declared type" % (short_path(fid), c.name), c.file, c.line))
+            if in_resolver and re.search(r"::parse_type_structure$", fid) and c.name in ("find", "split_once", "splitn", "split") and pat == "<":
+                rule.bad(V(rule.id, fid, "generic-catch-all:%s" % c.name, "the resolver's dispatcher branches on `%s('<')` anywhere in the text instead of on a constructor's literal "
+                           "prefix: texts that merely contain a generic element (a tuple `(u32, Option<T>)`, a reference) take that branch before their own" % c.name, c.file, c.line))
             if in_harvester and c.name in ("find", "rfind", "split_once", "rsplit_once", "splitn", "split") and pat in ("<", ">"):
                 rule.bad(V(rule.id, fid, "generic-catch-all:%s" % c.name, "the harvester branches on `%s('%s')` anywhere in the text instead of on a constructor's literal prefix: "
                            "texts that merely contain a generic element (tuples, references) take that branch" % (c.name, pat), c.file, c.line))
